@@ -53,7 +53,13 @@ impl LocalTypingContext {
   pub(super) fn get_captured(&self, lambda_loc: &Location) -> HashMap<PStr, Arc<Type>> {
     let mut map = HashMap::new();
     for (name, loc) in self.ssa_analysis_result.lambda_captures.get(lambda_loc).unwrap() {
-      map.insert(*name, self.type_map.get(loc).unwrap().dupe());
+      // A captured name whose binder sits in an ill-formed pattern has no recorded type: it is
+      // `any`, as in `read`.
+      let type_ = match self.type_map.get(loc) {
+        Some(t) => t.dupe(),
+        None => Arc::new(Type::Any(Reason::new(*loc, None), false)),
+      };
+      map.insert(*name, type_);
     }
     map
   }
